@@ -37,6 +37,11 @@ def run(ctx):
     c16_1b(ctx)
     c16_sk(ctx)
     c16_eq(ctx)
+    # unique encodings: G2 decoding has the single accepting path, to_bytes is the blst compressor (shared C13.2); trust-dependent
+    # decoding only at the enumerated sites (shared C13.4)
+    from . import c13 as _c13
+    _c13.c13_defaults_and_g2(ctx, R3="C16.1", R2="C16.1")
+    _c13.c13_4(ctx, _c13.streamable_impls(ctx.fb), R="C16.1")
 
 
 def c16_1(ctx):
